@@ -469,7 +469,7 @@ REQUIRED_THEOREMS = ['CfVerif.C06.' + t for t in (
     'write_exact', 'write_exact_single', 'unwritten_memory_unchanged', 'packets_within_limits',
     'read_reply_progress', 'write_ack_progress', 'd17_never_notified', 'd17_repaired', 'oob_write_raises',
     'gen_constants', 'gen_read_request', 'gen_write_request', 'gen_memory_api', 'gen_handlers', 'gen_disconnect', 'gen_tester',
-    'tester_write_pattern',
+    'tester_write_pattern', 'next_read_served', 'next_write_served',
     'd9_lock_left_held', 'd9_wedged')]
 TRUSTED = ['harness/corr/c06.py extractor + correspondence (fake `cf` boundary object: add_port_callback, disconnected, send_packet with the '
            'size check of Crazyflie.send_packet; CheckedLock turns a blocking acquire of a held lock into `hang`; one MemProxy object per '
